@@ -65,9 +65,18 @@ Definition image (files : list entry) : bytes :=
   HDR n ++ flat_map row (combine (name_offsets hl (map fst files)) (file_infos base (map snd files)))
         ++ txt ++ file_data base (map snd files).
 
-Lemma serialize_image files : serialize files = Ok (image files).
+(* the assembling part of serialize; the guard of F26 (530f18c) in front of it *)
+Definition too_big (files : list entry) (image_size : N) : bool :=
+  orb (65535 <? N.of_nat (length files)) (4294967295 <? image_size).
+Lemma serialize_guarded files :
+  serialize files =
+  let n := N.of_nat (length files) in
+  let txt0 := concat (map cz (map fst files)) in
+  let txt := txt0 ++ pad_zeros (8 + n * 16 + lenN txt0) in
+  if too_big files (8 + n * 16 + lenN txt + lenN (file_data (8 + n * 16 + lenN txt) (map snd files)))
+  then Err EOther else Ok (image files).
 Proof.
-  unfold serialize, image, HDR, BASE_HEADER_SIZE, METADATA_SIZE.
+  unfold serialize, image, HDR, too_big, BASE_HEADER_SIZE, METADATA_SIZE.
   rewrite text_fold. cbv beta iota zeta. rewrite file_fold. cbv beta iota zeta.
   rewrite !lenN_nil, !N.add_0_r. cbn [app]. rewrite <- !app_assoc. reflexivity.
 Qed.
@@ -206,6 +215,23 @@ Proof.
   rewrite !map_length, Nat.min_id. lia.
 Qed.
 
+(* serialize = the guard on the count and on the size of the image, then the image *)
+Lemma serialize_cases files :
+  serialize files = if too_big files (lenN (image files)) then Err EOther else Ok (image files).
+Proof. rewrite serialize_guarded. cbv zeta. rewrite (lenN_image files). reflexivity. Qed.
+Lemma serialize_image files : N.of_nat (length files) <= 65535 -> lenN (image files) < 2 ^ 32 -> serialize files = Ok (image files).
+Proof.
+  intros Hn Hs. rewrite serialize_cases. unfold too_big.
+  destruct (N.ltb_spec 65535 (N.of_nat (length files))); [lia|]. destruct (N.ltb_spec 4294967295 (lenN (image files))); [lia | reflexivity].
+Qed.
+Lemma serialize_Ok_inv files f : serialize files = Ok f ->
+  f = image files /\ N.of_nat (length files) <= 65535 /\ lenN (image files) < 2 ^ 32.
+Proof.
+  rewrite serialize_cases. unfold too_big.
+  destruct (N.ltb_spec 65535 (N.of_nat (length files))); [discriminate|]. destruct (N.ltb_spec 4294967295 (lenN (image files))); [discriminate|].
+  cbn [orb]. intros E. inversion E. repeat split; lia.
+Qed.
+
 Lemma image_lt_bound (files : list entry) : lenN (image files) < pack_bound files.
 Proof.
   rewrite lenN_image. cbv zeta. rewrite lenN_app, lenN_pad_zeros, lenN_names.
@@ -215,15 +241,15 @@ Proof.
 Qed.
 
 (* ------------------------------------------------------------------ entry i of the image *)
-Lemma image_entry (files : list entry) i e :
-  fits32 files -> nth_error files i = Some e -> ~ In 0 (fst e) ->
+Lemma image_entry_size (files : list entry) i e :
+  lenN (image files) < 2 ^ 32 -> nth_error files i = Some e -> ~ In 0 (fst e) ->
   exists na fa sz,
     fields_at (image files) (N.of_nat i) na fa sz /\ name_at (image files) na (fst e) /\
     sliceN fa sz (image files) = Some (snd e) /\ fa mod 32 = 0 /\ sz = lenN (snd e).
 Proof.
-  intros Hfit Hi Hnul.
-  pose proof (image_lt_bound files) as HLt. pose proof (lenN_image files) as HLen. cbv zeta in HLen.
-  unfold fits32 in Hfit. unfold image in *.
+  intros HLt Hi Hnul.
+  pose proof (lenN_image files) as HLen. cbv zeta in HLen. rewrite HLen in HLt.
+  unfold image in *.
   set (n := N.of_nat (length files)) in *. set (hl := 8 + n * 16) in *.
   set (names := map fst files) in *. set (bodies := map snd files) in *.
   set (txt0 := concat (map cz names)) in *. set (txt := txt0 ++ pad_zeros (hl + lenN txt0)) in *.
@@ -258,6 +284,15 @@ Proof.
     + reflexivity.
   - exact Hal.
   - reflexivity.
+Qed.
+
+Lemma image_entry (files : list entry) i e :
+  fits32 files -> nth_error files i = Some e -> ~ In 0 (fst e) ->
+  exists na fa sz,
+    fields_at (image files) (N.of_nat i) na fa sz /\ name_at (image files) na (fst e) /\
+    sliceN fa sz (image files) = Some (snd e) /\ fa mod 32 = 0 /\ sz = lenN (snd e).
+Proof.
+  intros Hfit. apply image_entry_size. pose proof (image_lt_bound files). unfold fits32 in Hfit. lia.
 Qed.
 
 (* ------------------------------------------------------------------ the image is made of bytes *)
@@ -296,24 +331,20 @@ Definition exact_and_aligned (f : bytes) (files : list entry) : Prop :=
     exists na fa sz, fields_at f (N.of_nat i) na fa sz /\ name_at f na (fst e) /\
                      sliceN fa sz f = Some (snd e) /\ fa mod 32 = 0 /\ sz = lenN (snd e).
 
-Theorem serialize_conforms (files : list entry) :
-  wf_files files -> N.of_nat (length files) <= 65535 -> fits32 files ->
-  exists f, serialize files = Ok f /\ conforms_pack f files /\ exact_and_aligned f files /\
-            u16_at BE f 4 = Some (N.of_nat (length files)) /\ wfb f.
+(* the image of a well-formed file list that serialize accepts (count <= 65535, image below 4 GiB) conforms *)
+Lemma image_conforms (files : list entry) :
+  wf_files files -> N.of_nat (length files) <= 65535 -> lenN (image files) < 2 ^ 32 ->
+  conforms_pack (image files) files /\ exact_and_aligned (image files) files /\
+  u16_at BE (image files) 4 = Some (N.of_nat (length files)) /\ wfb (image files).
 Proof.
-  intros Hwf Hn Hfit. exists (image files). split; [apply serialize_image|].
+  intros Hwf Hn Hfit.
   assert (Hcount : u16_at BE (image files) 4 = Some (N.of_nat (length files))).
   { unfold image, HDR. rewrite <- !app_assoc.
-    apply (u16_at_decomp BE _ (enc BE 4 MAGIC) (N.of_nat (length files))
-             ([0;0] ++ flat_map row (combine (name_offsets (8 + N.of_nat (length files) * 16) (map fst files))
-                 (file_infos (8 + N.of_nat (length files) * 16 + lenN (concat (map cz (map fst files)) ++ pad_zeros (8 + N.of_nat (length files) * 16 + lenN (concat (map cz (map fst files)))))) (map snd files)))
-               ++ (concat (map cz (map fst files)) ++ pad_zeros (8 + N.of_nat (length files) * 16 + lenN (concat (map cz (map fst files)))))
-               ++ file_data (8 + N.of_nat (length files) * 16 + lenN (concat (map cz (map fst files)) ++ pad_zeros (8 + N.of_nat (length files) * 16 + lenN (concat (map cz (map fst files)))))) (map snd files))).
-    - unfold trunc_w, maxw. rewrite N.mod_small by lia. rewrite <- !app_assoc. reflexivity.
-    - rewrite lenN_enc. reflexivity.
-    - lia. }
+    match goal with |- u16_at BE (enc BE 4 MAGIC ++ enc BE 2 ?v ++ ?rest) 4 = _ =>
+      replace v with (N.of_nat (length files)) by (unfold trunc_w, maxw; rewrite N.mod_small by lia; reflexivity);
+      apply (u16_at_decomp BE _ (enc BE 4 MAGIC) (N.of_nat (length files)) rest); [reflexivity | rewrite lenN_enc; reflexivity | lia] end. }
   assert (Hexact : exact_and_aligned (image files) files).
-  { intros i e Hi. apply image_entry; [exact Hfit | exact Hi|].
+  { intros i e Hi. apply image_entry_size; [exact Hfit | exact Hi|].
     destruct Hwf as [_ HF]. rewrite Forall_forall in HF. apply (HF e (nth_error_In _ _ Hi)). }
   split; [|split; [exact Hexact | split; [exact Hcount | apply wfb_image, Hwf]]].
   unfold conforms_pack. split; [|split; [|split; [|split]]].
@@ -326,6 +357,26 @@ Proof.
   - apply Hwf.
 Qed.
 
+(* success is GUARANTEED for at most 65535 files whose size bound fits 32 bits ... *)
+Theorem serialize_conforms (files : list entry) :
+  wf_files files -> N.of_nat (length files) <= 65535 -> fits32 files ->
+  exists f, serialize files = Ok f /\ conforms_pack f files /\ exact_and_aligned f files /\
+            u16_at BE f 4 = Some (N.of_nat (length files)) /\ wfb f.
+Proof.
+  intros Hwf Hn Hfit. pose proof (image_lt_bound files) as HL. unfold fits32 in Hfit.
+  exists (image files). split; [apply serialize_image; [exact Hn | lia]|]. apply image_conforms; [exact Hwf | exact Hn | lia].
+Qed.
+(* ... and WHENEVER serialize succeeds (F26: success itself implies count <= 65535 and image < 4 GiB) the image conforms *)
+Theorem serialize_Ok_conforms (files : list entry) f :
+  wf_files files -> serialize files = Ok f ->
+  conforms_pack f files /\ exact_and_aligned f files /\ u16_at BE f 4 = Some (N.of_nat (length files)) /\ wfb f /\
+  N.of_nat (length files) <= 65535 /\ lenN f < 2 ^ 32.
+Proof.
+  intros Hwf Hs. destruct (serialize_Ok_inv files f Hs) as (-> & Hn & Hl).
+  destruct (image_conforms files Hwf Hn Hl) as (H1 & H2 & H3 & H4).
+  split; [exact H1|]. split; [exact H2|]. split; [exact H3|]. split; [exact H4|]. split; assumption.
+Qed.
+
 Theorem round_trip (files : list entry) :
   wf_files files -> N.of_nat (length files) <= 65535 -> fits32 files ->
   forall m, exists f, serialize files = Ok f /\ parse m f = Ok files.
@@ -333,13 +384,41 @@ Proof.
   intros Hwf Hn Hfit m. destruct (serialize_conforms files Hwf Hn Hfit) as (f & Hs & Hc & _ & _ & W).
   exists f. split; [exact Hs | apply parser_correct; assumption].
 Qed.
-
-(* what the header count is for ANY number of files: `contents.len() as u16` *)
-Lemma serialize_count (files : list entry) :
-  exists f, serialize files = Ok f /\ u16_at BE f 4 = Some (N.of_nat (length files) mod 2 ^ 16).
+(* no size hypothesis: whatever serialize returns for a well-formed file list parses back to it *)
+Theorem round_trip_of_Ok (files : list entry) f :
+  wf_files files -> serialize files = Ok f -> forall m, parse m f = Ok files.
 Proof.
-  exists (image files). split; [apply serialize_image|]. unfold image, HDR. rewrite <- !app_assoc.
-  match goal with |- u16_at BE (enc BE 4 MAGIC ++ enc BE 2 ?v ++ ?rest) 4 = _ =>
-    apply (u16_at_decomp BE _ (enc BE 4 MAGIC) v rest); [reflexivity | rewrite lenN_enc; reflexivity |] end.
-  unfold trunc_w, maxw. apply N.mod_lt. lia.
+  intros Hwf Hs m. destruct (serialize_Ok_conforms files f Hwf Hs) as (Hc & _ & _ & W & _). apply parser_correct; assumption.
 Qed.
+
+(* F26 (530f18c): more than 65535 files, or an image of 4 GiB or more, is REJECTED (before the repair the count was written
+   `as u16` and the sizes `as u32`: 65536 files -> count 0, a file of 2^32 bytes -> size 0) *)
+Theorem serialize_rejects_too_many (files : list entry) : 65535 < N.of_nat (length files) -> serialize files = Err EOther.
+Proof.
+  intros H. rewrite serialize_cases. unfold too_big. destruct (N.ltb_spec 65535 (N.of_nat (length files))); [reflexivity | lia].
+Qed.
+Theorem serialize_rejects_too_large (files : list entry) : 2 ^ 32 <= lenN (image files) -> serialize files = Err EOther.
+Proof.
+  intros H. rewrite serialize_cases. unfold too_big. destruct (N.ltb_spec 4294967295 (lenN (image files))) as [L|L]; [rewrite orb_true_r; reflexivity | lia].
+Qed.
+(* the image holds every body: file contents of 4 GiB or more in total are rejected *)
+Lemma lenN_file_data_ge bodies : forall pos, fold_right (fun b acc => lenN b + acc) 0 bodies <= lenN (file_data pos bodies).
+Proof.
+  induction bodies as [|b r IH]; intros pos; cbn [fold_right file_data]; [lia|]. pose proof (IH (pos + lenN (blk pos b))) as G. pose proof (lenN_blk pos b) as Hb. rewrite lenN_app. lia.
+Qed.
+Theorem serialize_rejects_big_contents (files : list entry) :
+  2 ^ 32 <= fold_right (fun b acc => lenN b + acc) 0 (map snd files) -> serialize files = Err EOther.
+Proof.
+  intros H. apply serialize_rejects_too_large. rewrite lenN_image. cbv zeta.
+  match goal with |- context [lenN (file_data ?p ?b)] => pose proof (lenN_file_data_ge b p) end. lia.
+Qed.
+(* exactly when it succeeds *)
+Theorem serialize_Ok_iff (files : list entry) :
+  (exists f, serialize files = Ok f) <-> N.of_nat (length files) <= 65535 /\ lenN (image files) < 2 ^ 32.
+Proof.
+  split.
+  - intros (f & H). destruct (serialize_Ok_inv files f H) as (_ & H1 & H2). split; assumption.
+  - intros (H1 & H2). exists (image files). apply serialize_image; assumption.
+Qed.
+Theorem serialize_never_panics (files : list entry) k : serialize files <> Panic k.
+Proof. rewrite serialize_cases. destruct (too_big files (lenN (image files))); discriminate. Qed.
